@@ -52,6 +52,9 @@ CHECKS = {
  "C06": ("exhaustive enumeration of strings through quote-then-scan and statement templates",
          "Every string of length <=3 (4) over a 24-symbol alphabet containing every character class the escaper and the lexer distinguish (incl. NUL, CR, an invalid UTF-8 byte), every keyword in every case pattern, every 2-rune string over a rune set, and (db, rp, measurement) triples over 8 segment values incl. the empty middle: QuoteString/QuoteIdent must scan back to exactly one STRING/IDENT with the same value (expressible strings), IdentNeedsQuotes must agree with scanning the bare text, and the quoted value inserted into 12 statement templates must either be rejected or change exactly the slot's leaf in the template's AST.",
          "Expressible = valid UTF-8 without NUL or CR, as the property states. Strings longer than the bound are not visited.", "3/C06"),
+ "C07": ("deviation-bounded exhaustive enumeration of placeholder positions x bindings, parameter form vs literal form",
+         "Every statement of the grammar model within 1 (2) structural deviations x every value token (identifier, string, integer, number, duration, regex in every position the grammar has) replaced by $p (also a quoted name) x each of ~85 bindings covering every branch of BindValue/bindObjectValue, string contents chosen to re-lex badly and unbindable values; thorough adds every pair of placeholders. Unbindable or unbound parameters must fail; otherwise the parameter form and the form with the literal written out (harness's own formatter) must both fail or produce the same AST through ParseQuery.",
+         "Where a bound value has no literal spelling at the position (a regex outside regex positions, a negative number after an explicit sign, two placeholders glued into one dotted name) only totality is checked.", "3/C07"),
 }
 ALL = ["C%02d" % i for i in range(1, 21)]
 NOT_YET = "check not built yet in this revision of /verif (work in progress; see DESIGN.md section 3 for the planned bounded-exhaustive check)"
